@@ -7,6 +7,8 @@ import (
 	"os"
 	"path/filepath"
 	"runtime/debug"
+	"strconv"
+	"strings"
 	"syscall"
 	"time"
 )
@@ -27,6 +29,8 @@ func WorkerMain(args []string) int {
 	progress := fs.String("progress", "", "")
 	seed := fs.Int64("seed", 0, "")
 	describe := fs.Bool("describe", false, "")
+	resultPath := fs.String("result", "", "")
+	skipList := fs.String("skip", "", "")
 	prop := args[0]
 	fs.Parse(args[1:])
 	c := Lookup(prop)
@@ -60,9 +64,25 @@ func WorkerMain(args []string) int {
 			defer f.Close()
 		}
 	}
+	rc.ResultPath = *resultPath
+	if *skipList != "" {
+		var sk []int64
+		for _, x := range strings.Split(*skipList, ",") {
+			if v, err := strconv.ParseInt(x, 10, 64); err == nil {
+				sk = append(sk, v)
+			}
+		}
+		rc.SetSkip(sk)
+	}
 	c.Run(rc)
-	b, _ := json.Marshal(rc.Result())
-	fmt.Printf("RESULT %s\n", b)
+	if rc.ResultPath != "" {
+		rc.WriteResult(true)
+	} else {
+		r := rc.Result()
+		r.Final = true
+		b, _ := json.Marshal(r)
+		fmt.Printf("RESULT %s\n", b)
+	}
 	return 0
 }
 
